@@ -63,9 +63,13 @@ impl<T> ExactSizeIterator for TakenSlice<T> {}
 
 impl<T> Drop for TakenSlice<T> {
     fn drop(&mut self) {
-        for value in self {
-            drop(value);
-        }
+        let remaining = std::ptr::slice_from_raw_parts_mut(
+            unsafe { self.ptr.add(self.idx) },
+            self.len - self.idx,
+        );
+        self.idx = self.len;
+        // as for a vector: if the destructor of an element panics, the other elements are still dropped
+        unsafe { std::ptr::drop_in_place(remaining) };
     }
 }
 
